@@ -302,6 +302,23 @@ theorem box_extendBy_partition_independent (pool : Option Pool) (pt : Nat → IB
 def exPool : Pool := { workers := 2, script := fun len => [⟨200, len, 1⟩, ⟨0, 200, 0⟩], inWorkerThread := false }
 example : usesPool (some exPool) 201 = true ∧ 1 ≤ exPool.workers ∧ ∀ r ∈ exPool.script 201, r.tid < exPool.workers := by decide
 
+/-- non-vacuity with REUSED worker ids (a real pool hands out more sub-ranges than it has workers):
+    2 workers, 5 sub-ranges round-robin, executed in reverse order.  `PoolOK` only asks `tid < workers ()`,
+    so the theorems above quantify over every assignment of worker ids to sub-ranges, repeated ids included:
+    `boxes[tid]` must ACCUMULATE over all sub-ranges a worker receives (`reduceStep` joins into `P tid`). -/
+def exPoolReuse : Pool :=
+  { workers := 2, inWorkerThread := false,
+    script := fun _ => [⟨230, 257, 0⟩, ⟨201, 230, 1⟩, ⟨86, 201, 0⟩, ⟨1, 86, 1⟩, ⟨0, 1, 0⟩] }
+
+example : PoolOK IsPartition (some exPoolReuse) 257 := by
+  intro p hp
+  cases hp
+  exact ⟨by decide, by decide +kernel, by decide⟩
+
+example (pt : Nat → IBox) (box : IBox) :
+    boxExtendBy hull none (some exPoolReuse) pt 257 box = foldPoints hull pt 257 box :=
+  box_extendBy_partition_independent _ pt 257 box (by intro p hp; cases hp; exact ⟨by decide, by decide +kernel, by decide⟩)
+
 /-! ## dispatchTask threshold -/
 
 /-- The pool is used iff `length > 200`, a pool is installed and the caller is not a worker;
